@@ -881,7 +881,7 @@ class Interp:
     def exec_for(self, st, env):
         p = self.path
         n = self.loop_ordinals[id(st)]
-        it = self.eval(st.iter, env)
+        it = _chars(self.eval(st.iter, env))
         if isinstance(it, (TupleV, ListV)):
             items = list(it.items)       # A-SEQ: a body that mutates the iterated list is rejected
             broke = False
@@ -1283,7 +1283,7 @@ class Interp:
         if len(node.generators) != 1:
             raise Unsupported('nested comprehension')
         g = node.generators[0]
-        it = self.eval(g.iter, env)
+        it = _chars(self.eval(g.iter, env))
         cspec = self.loops.get('comprehension_loops', {}).get(self.stmt_ordinals.get(id(node)))
         if cspec is not None:
             return self.comprehension_loop(node, g, it, env, cspec)
@@ -1320,7 +1320,7 @@ class Interp:
         if not isinstance(it, (TupleV, ListV)):
             raise Unsupported('comprehension over %s' % type(it).__name__)
         out = []
-        inner = dict(env)
+        inner = flat_env(env)       # (a comprehension inside a nested function: the names of the defining environment stay visible)
         for item in list(it.items):
             self.assign(g.target, item, inner)
             if all(self.path.branch_truthy(self.eval(c, inner)) for c in g.ifs):
@@ -1642,6 +1642,14 @@ class Interp:
         if isinstance(f, ObjV) and '__call__' in f.fields:
             return self.call(f.fields['__call__'], [f] + args, kwargs)
         raise Unsupported('call of %r' % (f,))
+
+
+def _chars(v):
+    """Iterating a concrete (literal) string yields its characters, in order (A-SEQ for str): the iterable of a `for` / comprehension
+    that is a StrV with a known value becomes the list of its one-character strings; every other value is returned as it is."""
+    if isinstance(v, StrV) and v.value is not None:
+        return ListV([StrV(ch) for ch in v.value])
+    return v
 
 
 def _is_generator(fnode):
